@@ -50,4 +50,19 @@ theorem terminated_stays_blocked (env : Env) (fuel : Nat) (lang : Option Bytes) 
     ∀ b ∈ codes, runLoop env (fuel + 1) lang b s = (.ok [], s) :=
   fun b _ => C06.terminate_blocks env fuel lang b s ht
 
+/-- **A session that is already blocked stays silent also when the engine has a `first` function** (fix 5c54718):
+the pre-VM check does not run, nothing is called, state and cache are untouched, and no exit value is taken from the
+cache - the request only marks the engine as executed. Before the fix the stale `cache.Last()` value of the dead
+session became the output of every blocked request. -/
+theorem blocked_session_first_is_silent (env : Env) (cfg : Cfg) (e : Eng)
+    (fn : Nat → Option Bytes → Option Bytes → ExtResult) (hf : env.first = some fn)
+    (ht : e.vm.st.getFlag Facts.terminateFlag = .ok true) :
+    runFirst env cfg e = (.ok false, { e with execd := true }) := by
+  unfold runFirst
+  simp only [hf, EM.bind_apply, EM.vm_apply]
+  have hm : matchFlagM Facts.terminateFlag true e.vm = (.ok true, e.vm) := by
+    simp [matchFlagM, getFlagM, VM.bind', VM.get, VM.lift, VM.pure', ht, bind, pure]
+  rw [hm]
+  simp [EM.modify_apply, EM.pure_apply, EM.bind_apply]
+
 end Vise.C20
